@@ -1180,6 +1180,16 @@ def run_state(job, io):
                 n_loaded += 1
                 exercise_spec(sp, io, site, tape, probes)
             del sp
+            # whatever happened to the corrupted state, the genuine one still loads (nothing the loader keeps between calls
+            # may outlive a refused or a garbage load)
+            try:
+                again = pickle.loads(pickle.dumps(spec))
+                healthy = again == spec and repr(again) == repr(spec)
+            except Exception as e:  # noqa: BLE001
+                healthy = False
+                again = '%s: %s' % (type(e).__name__, e)
+            if not healthy and len(violations) < 6:
+                violations.append({'cls': 'after-effect', 'site': site, 'msg': 'after loading a corrupted state (%s) the intact pickle of %r no longer round-trips: %r' % (oc, spec, again)})
     finally:
         reg.unregister_all()
     dig = hashlib.sha256(repr(sorted(keys)).encode()).hexdigest()
